@@ -404,6 +404,15 @@ func serialParams(c *sx) (seed uint64, g, n, k int) {
 	return
 }
 
+func serialPacked(c *sx) string {
+	seed, g, n, k := serialParams(c)
+	h, verdict := runSerial(seed, g, n, k)
+	if h == nil {
+		return verdict
+	}
+	return fmt.Sprintf("(serial (seed %d) (g %d) (n %d) %s)", seed, g, n, h.text()) + serialPackSep + verdict
+}
+
 func init() {
 	register(&family{
 		name: "serial",
@@ -416,14 +425,8 @@ func init() {
 			k := 2 * (2 + r.intn(2))
 			return fmt.Sprintf("(serial (seed %d) (g %d) (n %d) (k %d))", r.u64()%1000000007, g, n, k)
 		},
-		run: func(c *sx) string {
-			seed, g, n, k := serialParams(c)
-			h, verdict := runSerial(seed, g, n, k)
-			if h == nil {
-				return verdict
-			}
-			return fmt.Sprintf("(serial (seed %d) (g %d) (n %d) %s)", seed, g, n, h.text()) + serialPackSep + verdict
-		},
+		// in a worker process: a fatal runtime error of the engine under test must not take the harness down
+		run: func(c *sx) string { return engineViaWorker(showSx(c)) },
 		rewrite: func(c *sx, packed string) (string, string) {
 			i := strings.Index(packed, serialPackSep)
 			if i < 0 {
